@@ -28,6 +28,8 @@ Record case := mkCase {
   c_params : list id;                (* parameter names in order *)
   c_rvnames : list id;               (* rv names in order *)
   c_rdists : list rdist;             (* distributions for remove_unused_parameters_and_rvs *)
+  c_symbols : list id;               (* statements.free_symbols as symengine reports it (it may keep symbols
+                                        that the exporter's sympy conversion simplifies away) *)
   c_unused : obs (list id * list id);(* parameter names, rv names after remove_unused_... *)
   c_epss : list id;                  (* epsilon names *)
   c_etas : list id;                  (* eta names *)
@@ -166,7 +168,7 @@ Definition check_ren (c : case) : list nat :=
     end) (c_ren c).
 
 Definition check_unused (c : case) : list nat :=
-  let symbols := all_ssyms (c_prog c) in
+  let symbols := c_symbols c in
   match c_unused c with
   | OOk (ps, rvs) =>
       tag (list_eqb Pos.eqb (unused_new_params symbols (c_rdists c) (c_fixed c) (c_params c)) ps) 5 ++
@@ -272,6 +274,7 @@ Record gcase := mkG {
   g_epss : list id;
   g_eta_grad : list (id * expr);     (* eta, d ipred / d eta *)
   g_eps_grad : list (id * expr);     (* eps, d y / d eps *)
+  g_counts : (nat * nat) * (nat * nat);  (* (#etas of the model, #eta gradient entries), same for epsilons *)
   g_envs : list (list (id * Q))
 }.
 
@@ -295,5 +298,7 @@ Definition grad_ok (c : gcase) (at_ : env -> env) (xs : list (id * expr)) : bool
 Definition verdict_grad (c : gcase) : list nat :=
   tag (grad_ok c (fun r => upd_map r std_fi (zeros (g_epss c))) (g_eta_grad c)) 41 ++
   tag (grad_ok c (fun r => r) (g_eps_grad c)) 42 ++
+  tag (Nat.eqb (fst (fst (g_counts c))) (snd (fst (g_counts c)))) 43 ++
+  tag (Nat.eqb (fst (snd (g_counts c))) (snd (snd (g_counts c)))) 44 ++
   [2000 + length (filter (fun m => match run7 (env_of m) (g_prog c) (g_dv c) with Some _ => true | None => false end)
                          (g_envs c))].
